@@ -1,6 +1,7 @@
 (* Check/C08.v — correspondence check for C08.  The harness supplies the
    universe U and, taken from the implementation: the equivalence classes
-   induced by Value.Hash (CH) and by values.MapHash of {k: v} (CM) on U, what
+   induced by Value.Hash (CH), by values.MapHash of {k: v} (CM) and by
+   values.MapHash of an object's own member map (CO) on U, what
    happens under every insertion order of each object, the class of Copy /
    Clone of every value, and the outputs of the de-duplicating constructs on
    arrays drawn from U.  [mismatches] lists every place where an observation
@@ -11,24 +12,35 @@ From Ferret Require Export Check.Common.
 
 Definition T3 := (N * N * N)%type.
 
-(* kind 0 / 5: for i < j, "same class" must coincide with structural identity *)
-Fixpoint row_classes (ni : value) (ci mi : N) (ns : list value) (cs ms : list N) (i j : N) : list T3 :=
-  match ns, cs, ms with
-  | nj :: ns', cj :: cs', mj :: ms' =>
+(* kind 0 / 5: for i < j, "same class" must coincide with structural identity.
+   kind 6: the same for values.MapHash applied directly to the member map of
+   two objects (CO; entries that are not objects carry a class >= |U| and are
+   skipped).  There is no exception for any shape of key: the pairs that
+   collided while keys were hashed without their length ({a: v, b: w} against
+   {"a:" ++ le64 (hash v) ++ ",b": w}, planted by the harness for several v, w)
+   must be in different classes like every other pair of different values. *)
+Fixpoint row_classes (n : N) (ni : value) (ci mi oi : N) (ns : list value) (cs ms os : list N) (i j : N) : list T3 :=
+  match ns, cs, ms, os with
+  | nj :: ns', cj :: cs', mj :: ms', oj :: os' =>
       let e := value_eqb ni nj in
       (if Bool.eqb (ci =? cj)%N e then [] else [(0%N, i, j)]) ++
       (if Bool.eqb (mi =? mj)%N e then [] else [(5%N, i, j)]) ++
-      row_classes ni ci mi ns' cs' ms' i (j + 1)%N
-  | [], [], [] => []
-  | _, _, _ => [(9%N, i, j)]
+      (if (n <=? oi)%N || (n <=? oj)%N || Bool.eqb (oi =? oj)%N e then [] else [(6%N, i, j)]) ++
+      row_classes n ni ci mi oi ns' cs' ms' os' i (j + 1)%N
+  | [], [], [], [] => []
+  | _, _, _, _ => [(9%N, i, j)]
   end.
 
-Fixpoint rows_classes (ns : list value) (cs ms : list N) (i : N) : list T3 :=
-  match ns, cs, ms with
-  | ni :: ns', ci :: cs', mi :: ms' =>
-      row_classes ni ci mi ns' cs' ms' i (i + 1)%N ++ rows_classes ns' cs' ms' (i + 1)%N
-  | [], [], [] => []
-  | _, _, _ => [(9%N, i, 0%N)]
+Definition is_obj (v : value) : bool := match v with VObj _ => true | _ => false end.
+
+Fixpoint rows_classes (n : N) (ns : list value) (cs ms os : list N) (i : N) : list T3 :=
+  match ns, cs, ms, os with
+  | ni :: ns', ci :: cs', mi :: ms', oi :: os' =>
+      (* MapHash of an object's members must have been observed *)
+      (if is_obj ni && (n <=? oi)%N then [(6%N, i, i)] else []) ++
+      row_classes n ni ci mi oi ns' cs' ms' os' i (i + 1)%N ++ rows_classes n ns' cs' ms' os' (i + 1)%N
+  | [], [], [], [] => []
+  | _, _, _, _ => [(9%N, i, 0%N)]
   end.
 
 (* kind 1: every insertion order of an object gives the same hash and compares
@@ -134,16 +146,16 @@ Fixpoint dedup_mism (U : list value) (D : list (list N * list (list N) * list N)
        end) ++ dedup_mism U r (i + 1)%N
   end.
 
-Definition mismatches (U : list value) (CH CM : list N) (PM : list (N * bool * bool))
+Definition mismatches (U : list value) (CH CM CO : list N) (PM : list (N * bool * bool))
   (CP BC CL BL : list N) (D : list (list N * list (list N) * list N)) : list T3 :=
-  rows_classes (map norm U) CH CM 0%N ++ perms_mism PM
+  rows_classes (N.of_nat (length U)) (map norm U) CH CM CO 0%N ++ perms_mism PM
   ++ copies_mism 2%N U U CP BC 0%N ++ copies_mism 3%N U U CL BL 0%N
   ++ dedup_mism U D 0%N.
 
 (* a block of extra (random, deeper) values: classes within the block only *)
-Definition mismatches_block (U : list value) (CH CM : list N) (PM : list (N * bool * bool))
+Definition mismatches_block (U : list value) (CH CM CO : list N) (PM : list (N * bool * bool))
   (CP BC CL BL : list N) : list T3 :=
-  mismatches U CH CM PM CP BC CL BL [].
+  mismatches U CH CM CO PM CP BC CL BL [].
 
 (* ---- drift diagnostic: in how many universe entries does the exact 64-bit
    value of the implementation differ from the FNV-1a model? *)
@@ -164,3 +176,11 @@ Fixpoint drift_map_aux (us : list value) (H : list string) : N :=
   | _, _ => 0%N
   end.
 Definition drift_map (U : list value) (H : list string) : N := drift_map_aux U H.
+(* MapHash of the member map of every object (other entries are skipped) *)
+Fixpoint drift_members_aux (us : list value) (H : list string) : N :=
+  match us, H with
+  | VObj m :: us', h :: H' => ((if (map_hash m =? hexN h 0)%N then 0 else 1) + drift_members_aux us' H')%N
+  | _ :: us', _ :: H' => drift_members_aux us' H'
+  | _, _ => 0%N
+  end.
+Definition drift_members (U : list value) (H : list string) : N := drift_members_aux U H.
